@@ -181,6 +181,47 @@ def action_wrapper(which):
     return Scenario(label, KA + '.__call__', gen, props=('C16', 'C07', 'C06'))
 
 
+def sig_key_flags(case):
+    """PGPSignature.key_flags: the capabilities a self-signature or binding signature GRANTS are the ones its issuer signed - the Key Flags
+    subpacket of the hashed area. A Key Flags subpacket in the unhashed area (which anybody can append to a valid signature) grants nothing:
+    with no hashed one the answer is the empty set or an error, never the appended flags."""
+    label = 'C16/PGPSignature.key_flags[%s]' % case
+    SIG, SPC, KF = 'pgpy.pgp.PGPSignature', 'pgpy.packet.fields.SubPackets', 'pgpy.packet.subpackets.signature.KeyFlags'
+
+    def gen(repo):
+        r = scn.Run(repo, SIG, 'key_flags', label)
+        ex, st = r.ex, r.st
+        r.set('sig', '_signature', E.VObj('pgpy.packet.packets.SignatureV4', 'spkt'))
+        r.set('spkt', 'subpackets', E.VObj(SPC, 'subp'))
+        hashed, unhashed = E.VObj(KF, 'kf-hashed'), E.VObj(KF, 'kf-unhashed')
+        FH = E.VSet([E.VInt(v, enum='pgpy.constants.KeyFlags') for v in (1, 2, 4, 8)], [z3.Bool('signed_flag_%d' % v) for v in (1, 2, 4, 8)])
+        FU = E.VSet([E.VInt(v, enum='pgpy.constants.KeyFlags') for v in (1, 2, 4, 8)], [z3.Bool('appended_flag_%d' % v) for v in (1, 2, 4, 8)])
+        r.hook(KF, 'flags', lambda ex, st, o, a: [(st, FH if o.ref == 'kf-hashed' else FU)])
+        hs = [hashed] if case.startswith('hashed') else []
+        us = [unhashed] if 'unhashed' in case else []
+
+        def contains(ex, st, o, a):
+            name = a[0].s
+            return [(st, E.VBool({'KeyFlags': bool(hs or us), 'h_KeyFlags': bool(hs)}.get(name, False)))]
+
+        def getitem(ex, st, o, a):
+            name = a[0].s
+            return [(st, ex.new_list(st, {'KeyFlags': hs + us, 'h_KeyFlags': hs}.get(name, [])))]       # hashed subpackets are listed first
+        r.hook(SPC, '__contains__', scn.method_hook(contains))
+        r.hook(SPC, '__getitem__', scn.method_hook(getitem))
+        for pi, (s, v) in enumerate(r.call(E.VObj(SIG, 'sig'), [])):
+            if isinstance(v, E.Raise):
+                r.oblige(s, 'an-error-only-when-there-is-no-signed-subpacket-to-read/p%d' % pi, z3.BoolVal(case == 'unhashed only'), v.where)
+                continue
+            if hs:
+                r.oblige(s, 'the-flags-of-the-signed-subpacket/p%d' % pi, z3.BoolVal(v is FH))
+            else:
+                empty = isinstance(v, E.VSet) and not v.view(s).items
+                r.oblige(s, 'nothing-is-granted-without-a-signed-subpacket(appended-flags-do-not-count)/p%d' % pi, z3.BoolVal(bool(empty)))
+        return r.result()
+    return Scenario(label, SIG + '.key_flags', gen, props=('C16', 'C15'))
+
+
 def get_key_flags():
     """which signature decides a component's capabilities"""
     label = 'C16/PGPKey._get_key_flags'
@@ -248,4 +289,4 @@ def get_key_flags():
 
 
 def scenarios():
-    return [usage(0), usage(1), usage(2), check_attributes(), get_key_flags()] + [action_wrapper(w) for w in ('other', 'certify-own-uid', 'certify-foreign-uid')]
+    return [usage(0), usage(1), usage(2), check_attributes(), get_key_flags()] + [sig_key_flags(c) for c in ('hashed', 'hashed and unhashed', 'unhashed only', 'none')] + [action_wrapper(w) for w in ('other', 'certify-own-uid', 'certify-foreign-uid')]
